@@ -299,6 +299,14 @@ class MayRaise:
 
     def elem_ann(self, t: Any) -> ast.expr | None:
         base = self.term_ann(t[1])
+        for _ in range(3):
+            # a module-level type alias (`_Outcome = tuple[float, bool]`) stands for what it names
+            if isinstance(base, ast.Name):
+                k, p = self.prog.lookup_name(base.id, self.fi, self.fi.module)
+                if k == "assign" and isinstance(p[1], (ast.Subscript, ast.Name, ast.BinOp)):
+                    base = p[1]
+                    continue
+            break
         if isinstance(base, ast.Subscript):
             head = ast.unparse(base.value).split(".")[-1]
             sl = base.slice
@@ -541,6 +549,13 @@ class MayRaise:
             bt = ty(t[1])
             fixed_tuple = False
             ba = self.term_ann(t[1])
+            for _ in range(3):
+                if isinstance(ba, ast.Name):  # a module-level type alias
+                    k2, p2 = self.prog.lookup_name(ba.id, self.fi, self.fi.module)
+                    if k2 == "assign" and isinstance(p2[1], (ast.Subscript, ast.Name)):
+                        ba = p2[1]
+                        continue
+                break
             if isinstance(ba, ast.Subscript) and ast.unparse(ba.value).split(".")[-1] in ("tuple", "Tuple") and isinstance(ba.slice, ast.Tuple) and t[2][0] == "const" and isinstance(t[2][1], int) and t[2][1] < len(ba.slice.elts):
                 fixed_tuple = True  # tuple[A, B][i] with i in range
             if fixed_tuple:
